@@ -125,8 +125,8 @@ PROPOSED_PATCH = r'''
 
 PROP = "C20"
 ENGINE = "rcdom"
-LEAN_TARGETS = ["H5V.Props.C20"]
-AUDIT_IMPORTS = ["H5V.Props.C20"]
+LEAN_TARGETS = ["H5V.Props.C20", "H5V.Props.C20Deep"]
+AUDIT_IMPORTS = ["H5V.Props.C20Deep"]
 THEOREMS = ["H5V.Props.C20." + t for t in [
     "C20_parent_links_step", "C20_parent_links", "C20_reachable_inv", "C20_isAncOrSelf_iff",
     "C20_text_merge_append", "C20_text_merge_before_sibling", "C20_no_adjacent_text_append",
@@ -136,6 +136,10 @@ THEOREMS = ["H5V.Props.C20." + t for t in [
     "C20_clone_option_partial", "C20_clone_option_nothing", "C20_clone_option_fixed_example",
     "C20_clone_asCode_noop", "C20_clone_option_pinned_partial", "C20_witness_clone_option",
     "C20_serialize_preorder", "C20_serialize_each_node_once",
+    # deep copies (Props/C20Deep.lean): the mirrored children are isomorphic fresh subtrees, template contents not shared
+    "C20_copy_ids_fresh", "C20_clone_subtree_deep", "C20_clone_template_not_shared", "C20_clone_option",
+    "C20_clone_option_ids_fresh", "C20_tcValid_step", "C20_reachable_tcValid", "C20_clone_option_reachable",
+    "C05_mirror_inv_preserved", "C05_mirror_needs_more_than_contract",
 ]]
 TRUSTED = [
     "Lean 4 kernel; axioms ⊆ {propext, Classical.choice, Quot.sound} (audited per run)",
